@@ -591,7 +591,7 @@ func c02Rotation(c *sim.Case) {
 	hdr := directives[order%len(directives)]
 	store := []string{"memory", "redis"}[order/8]
 	mk := func(h map[string]string, prefix string) *sim.World {
-		w := sim.NewWorld(c, sim.WorldOpts{ViaServer: true, JwksFetchSec: 1, CookiePrefix: prefix, Store: store})
+		w := sim.NewWorld(c, sim.WorldOpts{ViaServer: true, JwksFetchSec: 1, CookiePrefix: prefix, Store: store, RawKeyProvider: true})
 		w.IdP.JWKSHeaders = h
 		return w
 	}
@@ -623,10 +623,16 @@ func c02Rotation(c *sim.Case) {
 		accepted := lr.Final != nil && lr.Final.OK
 		c.Logf("%s: %.1fs after the key was withdrawn (fetch interval 1 s, JWKS headers %v) a token signed with it -> accepted=%v (%s)", what, waited.Seconds(), w.IdP.JWKSHeaders, accepted, lr.Err)
 		if accepted {
-			c.Violation("withdrawn-key-accepted:"+what, "%.1fs after the provider withdrew its signing key (periodic_fetch_interval_sec=1; a deployment with the same configuration re-read the key set meanwhile) a token signed with the withdrawn key was bound and honoured; JWKS answer headers: %v", waited.Seconds(), w.IdP.JWKSHeaders)
+			sig := "withdrawn-key-accepted:"
+			if strings.HasPrefix(what, "never-published") {
+				sig = "unpublished-key-accepted:"
+			}
+			c.Violation(sig+what, "%.1fs after the provider withdrew its signing key (periodic_fetch_interval_sec=1; a deployment with the same configuration re-read the key set meanwhile) a token signed with the withdrawn key was bound and honoured; JWKS answer headers: %v", waited.Seconds(), w.IdP.JWKSHeaders)
 		}
 	}
 	try(ctl, oldC, "plain-jwks-answers")
+	// a key the provider never published, under a kid of its own: no amount of re-reading the key set makes it valid
+	try(ctl, sim.Keys()[3].With("attacker-kid-"+fmt.Sprint(order), ""), "never-published-key-own-kid")
 	name := "plain-jwks-answers"
 	if hdr != nil {
 		name = "jwks-answers-with-cache-directives"
